@@ -282,7 +282,13 @@ def run(model, col, tier):
     sites12 = _built12(model, G12, _D12(model)).get("CompoundStatement", [])
     col.floor("R12.4", "grammar actions building a CompoundStatement", len(sites12), 1)
     for P, c, pname in sites12:
-        i = _pidx12(c.args[0], pname) if c.args else None
+        a0 = c.args[0] if c.args else None
+        if isinstance(a0, ast.Name):
+            # a local bound once to p[i] (and not touched otherwise) stands for it
+            binds = [s.value for s in ast.walk(P.func) if isinstance(s, ast.Assign) and len(s.targets) == 1 and isinstance(s.targets[0], ast.Name) and s.targets[0].id == a0.id]
+            touched = [x for x in ast.walk(P.func) if isinstance(x, ast.Call) and isinstance(x.func, ast.Attribute) and isinstance(x.func.value, ast.Name) and x.func.value.id == a0.id]
+            a0 = binds[0] if len(binds) == 1 and not touched else a0
+        i = _pidx12(a0, pname) if a0 is not None else None
         col.check(i is not None, "R12.4", f"nsl/parser.py::{P.func.name} block contents", f"CompoundStatement(p[{i}]): the parsed statement list itself",
                   f"`{' '.join(unparse(c).split())[:70]}` builds the block from a computed list instead of the parsed statement list: statements (and declarations) of nested blocks "
                   "can end up in the enclosing block, where their names stay visible after the inner block ended", "nsl/parser.py", c)
